@@ -238,7 +238,7 @@ impl Property for C07 {
         "C07"
     }
     fn rule(&self) -> String {
-        "case = generated F-assoc program — traits with an associated type (with or without a bound), coherent impls by construction (pairwise non-unifiable headers: distinct constructors or distinct ground arguments, generic and nested headers, where-clauses), values that are ground, mention the impl parameter, nest it under a constructor or are projections of it — with 5 goals: exists<U> { Normalize(<X as Tr>::Out -> U) }, X: Tr<Out = U> with U unknown, X: Tr<Out = Y> with Y the right value or a wrong concrete type, and forall<T> variants (optionally under a hypothesis). Oracle: an independent lookup (the unique impl whose header matches one-way, where-clauses checked by the ground evaluator, value instantiated and recursively normalized): Unique answer => its type is exactly that value; 'No possible solution' => no impl applies (or the concrete candidate differs from the value); definite guidance => the value is an instance; a wrong concrete candidate is never Unique; Ambiguous is accepted (SLG reports the placeholder fallback as a second answer). Non-trivial = judged goal where an impl applies and its value mentions an impl parameter or a nested projection; distinct by hash of (program, goal, solver).".into()
+        "case = generated F-assoc program — traits with an associated type (with or without a bound), coherent impls by construction (pairwise non-unifiable headers: distinct constructors or distinct ground arguments, generic and nested headers, where-clauses), values that are ground, mention the impl parameter, nest it under a constructor or are projections of it — with 5 goals: exists<U> { Normalize(<X as Tr>::Out -> U) }, X: Tr<Out = U> with U unknown, X: Tr<Out = Y> with Y the right value or a wrong concrete type, and forall<T> variants (optionally under a hypothesis). Every goal is also solved through chalk-integration's ChalkDatabase (its own RustIrDatabase implementation) and must get the same answer as with the lowered Program. Oracle: an independent lookup (the unique impl whose header matches one-way, where-clauses checked by the ground evaluator, value instantiated and recursively normalized): Unique answer => its type is exactly that value; 'No possible solution' => no impl applies (or the concrete candidate differs from the value); definite guidance => the value is an instance; a wrong concrete candidate is never Unique; Ambiguous is accepted (SLG reports the placeholder fallback as a second answer). Non-trivial = judged goal where an impl applies and its value mentions an impl parameter or a nested projection; distinct by hash of (program, goal, solver).".into()
     }
     fn assumptions(&self) -> Vec<String> {
         vec!["cases whose inner projection has no applicable impl are out of scope (counted)".into(), "programs are coherent by construction, not checked by chalk's coherence pass".into()]
@@ -305,6 +305,22 @@ impl Property for C07 {
                         None => continue,
                     };
                     let rendered = render(&sol);
+                    // the same goal through chalk-integration's query database (ChalkDatabase implements RustIrDatabase itself,
+                    // next to Program): both implementations must serve the same program
+                    {
+                        let db = chalk_integration::db::ChalkDatabase::with(&low.text, sv.choice());
+                        let (r, _) = guarded(DEFAULT_BUDGET, || db.solve(&lg.peeled.goal));
+                        match r {
+                            Run::Done(s2) => {
+                                let r2 = render(&s2);
+                                if r2 != rendered {
+                                    out.fail(format!("{}:database-implementations-disagree", sv.name()), format!("[{}] goal `{}`: `{}` with the lowered Program as database, `{}` through ChalkDatabase\n{}", sv.name(), lg.text, rendered, r2, low.text));
+                                }
+                            }
+                            Run::Panic(m) => out.fail(format!("{}:panic-through-chalk-database:{}", sv.name(), m), format!("[{}] goal `{}` panics through ChalkDatabase: {}\n{}", sv.name(), lg.text, m, low.text)),
+                            _ => {}
+                        }
+                    }
                     let ctx = |msg: String| format!("[{}] {}\n{}goal: {}\nanswer: {}\nreference: {:?}", sv.name(), msg, low.text, lg.text, rendered, expected);
                     let ans = names.convert(&lg.peeled, &sol);
                     let pr = Printer { p: &case.program, self_name: None };
